@@ -89,6 +89,12 @@ def _num(x):
         return x
 
 
+def _name_split(name):
+    import re
+    m = re.fullmatch(r"([A-Za-z*]+)(\d+)", str(name) if name is not None else "")
+    return (m.group(1), int(m.group(2))) if m else ("", -1)
+
+
 def project_fine(g, all_atom):
     """Fine graph returned by resolve(): full abstract state, projected when it is yielded."""
     keys = list(g.nodes)
@@ -111,6 +117,7 @@ def project_fine(g, all_atom):
             "raw_charge": fmt_float(a["charge"]) if "charge" in a else "",
             "isH": bool(all_atom and a.get("element") == "H"),
             "chiral": "" if a.get("chiral") is None else str(a.get("chiral")),
+            "name_el": _name_split(name)[0], "name_idx": _name_split(name)[1],
             "ez": [list(x) if isinstance(x, (list, tuple)) else x for x in (a.get("ez_isomer") or [])] if False else [],
         })
     edges = []
